@@ -26,14 +26,27 @@ PENTA = [(0, 0), (5, 0), (6, 3), (3, 6), (0, 4)]
 
 
 class Scripted:
-    """rng whose .normal(mean, std, size) returns mean + std * z for a fixed integer pattern z."""
+    """A random generator whose stream of standard normal deviates is the integer pattern z, over and over: .normal(loc, scale, size)
+    returns loc + scale * (the next deviates of the stream), filled in C order like numpy does - so one draw of n values per generator
+    and a single broadcast draw of (generators x n) values see the same numbers."""
 
     def __init__(self, z):
         self.z = np.array(z, dtype=float)
+        self.pos = 0
 
-    def normal(self, mean, std, size=None):
-        assert size == len(self.z)
-        return mean + std * self.z
+    def _take(self, count):
+        idx = (self.pos + np.arange(count)) % len(self.z)
+        self.pos += count
+        return self.z[idx]
+
+    def normal(self, loc=0.0, scale=1.0, size=None):
+        shape = np.broadcast(np.asarray(loc), np.asarray(scale)).shape if size is None else (tuple(size) if np.ndim(size) else (int(size),))
+        shape = np.broadcast_shapes(shape, np.shape(loc), np.shape(scale))
+        dev = self._take(int(np.prod(shape, dtype=int))).reshape(shape)
+        return loc + scale * dev
+
+    def standard_normal(self, size=None):
+        return self.normal(0.0, 1.0, size)
 
 
 def collinear(pts):
